@@ -387,7 +387,7 @@ func (w *world) restart(ph Phase, where string) bool {
 		for _, l := range seen {
 			if strings.HasPrefix(l, "error ") {
 				switch {
-				case strings.Contains(l, "is ahead of latest snapshot"):
+				case strings.Contains(l, "is ahead of"):
 					impl = "err ahead"
 				case strings.Contains(l, "is behind the earliest snapshot"):
 					impl = "err behind"
@@ -799,7 +799,7 @@ func main() {
 	budget := 75 * time.Second
 	workers := 8
 	if o.Tier == "thorough" {
-		budget = 8 * time.Minute
+		budget = 150 * time.Second
 	}
 	deadline := time.Now().Add(budget)
 	var wg sync.WaitGroup
